@@ -244,6 +244,17 @@ def run_generic(ctx, prop, kind, algos, spec):
                     ctx.sample(case)
                 if ctx.too_many() or ctx.out_of_time():
                     return
+        elif spec["kind"] == "deep":
+            rng = ctx.rng("deep")
+            for k in range(spec["count"]):
+                case = gen.deep_super_case(rng, ordered=kind == "ordered", max_obj=spec.get("max_obj", 7), max_fam=spec.get("max_fam", 5))
+                case["algos"] = list(algos)
+                check_case(ctx, prop, case, algos, hooks=hooks)
+                ctx.count("deep_cases")
+                if k < 2:
+                    ctx.sample(case)
+                if ctx.too_many() or ctx.out_of_time():
+                    return
         else:
             rng = ctx.rng("rand")
             for k in range(spec["count"]):
